@@ -212,6 +212,12 @@ def stride_pos_in_range(ctx, bb, pos, recv, strict, F=None):
                 d = lin_sub(lin(val), lin(npos))
                 if all(v <= 0 for v in d.values()) and d.get(1, 0) <= -1:
                     return True
+    # (e) the position is the payload of `len(recv).checked_sub(k)` with constant k >= 1: it exists
+    #     only when len >= k and is then len - k < len
+    t = nobb(pos)
+    if t[0] == "call" and t[1][1] == "checked_sub" and len(t[2]) == 2 and tuple(t[3]) == ("v:Some", "f:0") and \
+            _is_stride_len(t[2][0], nobb(recv)) and t[2][1][0] == "const" and str(t[2][1][1]).isdigit() and int(t[2][1][1]) >= 1:
+        return True
     # (c) the position is an element of the half-open range `a..Stride::len(recv)`
     t = pos
     if t[0] == "call" and t[1] == ("Iterator", "next") and tuple(t[3]) == ("v:Some", "f:0") and t[2]:
@@ -290,6 +296,9 @@ def read_item_types(F):
     for a in F.adts:
         g = find_methods(F, a, "get")
         if g and find_methods(F, a, "len") and g[0].d.get("vis_pub"):
+            ret = str(g[0].d.get("sig") or "").rsplit("->", 1)[-1].strip()
+            if ret.startswith("Option<") or ret.startswith("std::option::Option<") or ret.startswith("core::option::Option<"):
+                continue  # a checked accessor in the style of slice::get: out of range is None, not a read item's fail-stop get
             out.append(a)
     return sorted(out)
 
